@@ -71,7 +71,7 @@ func init() {
 				W:       weights(Weights{"update-ref": 5, "branch": 4, "branch-rename": 3, "reset": 6, "junk": 6, "switch-c": 2, "commit-inject": 4}),
 				Oracles: []HistOracle{orC03}, PreReset: true, AbsRefine: true}
 		})
-	checks["C04"] = histCheck("C04", []string{"C04.update_membership", "C04.update_perm", "C04.update_same_noop", "C04.delete_exact", "C04.eraseIdx_canonical", "C04.sortEntries_sorted", "C06.getEntry_correct"}, histRule,
+	checks["C04"] = histCheck("C04", []string{"C04.update_membership", "C04.update_perm", "C04.update_same_noop", "C04.delete_exact", "C04.eraseIdx_canonical", "C04.sortEntries_sorted", "C06.getEntry_correct", "C04.rm_exact", "C04.rmArgs_exact", "C04.rm_unknown_refused", "C04.addArgs_frame", "C04.add_file_staged", "C04.update_canonical", "C04.delete_frame"}, histRule,
 		func(ctx *Ctx) *HistCfg {
 			return &HistCfg{Prop: "C04", Cases: tierN(ctx, 200, 2000), MinSteps: 8, MaxSteps: 30,
 				W:       weights(Weights{"add": 25, "rm": 12, "write": 20, "rmfile": 8, "rmdir": 4, "reset": 1, "junk": 0}),
@@ -111,7 +111,7 @@ func init() {
 	checks["C13"] = histCheck("C13", []string{"C13.status_ok", "C13.modified_iff", "C13.same_bytes_not_modified", "C13.deleted_iff", "C13.untracked_iff", "C01.encode_injective", "C06.getEntry_correct", "C17.nothing_hidden_without_ignore"}, histRule,
 		func(ctx *Ctx) *HistCfg {
 			return &HistCfg{Prop: "C13", Cases: tierN(ctx, 200, 2000), MinSteps: 8, MaxSteps: 30,
-				W:       weights(Weights{"status": 18, "write": 18, "rewrite-same": 6, "touch": 4, "rmfile": 8, "rmdir": 4, "mkdir": 2, "ignore": 7, "commit": 8, "add": 12, "junk": 0}),
+				W:       weights(Weights{"status": 18, "write": 18, "rewrite-same": 6, "touch": 4, "rmfile": 8, "rmdir": 4, "mkdir": 2, "ignore": 5, "ignore-probe": 6, "commit": 8, "add": 12, "junk": 0}),
 				Oracles: []HistOracle{orC13}, CommitFirst: true,
 				// names with the extensions the generated `*.ext` entries use, so that ignored files really
 				// exist next to files that sort before and after them
@@ -133,7 +133,7 @@ func init() {
 	checks["C17"] = histCheck("C17", []string{"C17.matches_dir", "C17.matches_ext", "C17.nothing_hidden_without_ignore", "C17.meta_always"}, histRule,
 		func(ctx *Ctx) *HistCfg {
 			return &HistCfg{Prop: "C17", Cases: tierN(ctx, 200, 2000), MinSteps: 8, MaxSteps: 30,
-				W:       weights(Weights{"ignore": 6, "add": 20, "add-all": 10, "status": 10, "write": 20, "commit": 5, "reset": 2, "restore": 2, "junk": 0}),
+				W:       weights(Weights{"ignore": 5, "ignore-probe": 5, "add": 20, "add-all": 10, "status": 10, "write": 20, "commit": 5, "reset": 2, "restore": 2, "junk": 0}),
 				Oracles: []HistOracle{orC17},
 				Names: func(r *rng) []string {
 					return []string{"a", "build", "mybuild", "x.log", "y.tmp", "z.c", "src", "out", "a.goit", "my.goit", "log", "b.o"}
